@@ -31,8 +31,8 @@ class Ctx:
 
     def __init__(self, node, pos=1, size=1, vars=None, ns=None, keys=None, current=None):
         self.node, self.pos, self.size = node, pos, size
-        self.vars = vars or {}
-        self.ns = ns or {}
+        self.vars = vars if vars is not None else {}
+        self.ns = ns if ns is not None else {}
         self.keys = keys
         self.current = current if current is not None else node
 
